@@ -83,9 +83,16 @@ def eval_reassign(kind, v1, v2):
     partners = [m.rating(*v) for v in ALPHA[:8]]
     try:
         r.ordinal(); r.ordinal(1); r < partners[0]; r >= partners[1]; sorted([r] + partners[:2]); hash(r); r == partners[0]
+        import copy
+
+        snap = copy.deepcopy(r)  # same id, values of v1
         r.mu, r.sigma = v2[0], v2[1]
         f = m.rating(*v2)
         msgs = []
+        same = (v1[0] == v2[0]) and (v1[1] == v2[1])
+        if (snap == r) is not same or (snap != r) is not (not same) or (r == snap) is not same:
+            msgs.append(f"{kind}: a deep copy taken at {v1} compared with its original after the original was set to {v2}: == gives {snap == r!r}, "
+                        f"components equal: {same} (the copy shares the id)")
         for z in (None, 1):
             a = r.ordinal() if z is None else r.ordinal(z)
             b = f.ordinal() if z is None else f.ordinal(z)
